@@ -81,9 +81,13 @@ func (e StdEng) Map(fn interface{}, a Tensor, opts ...FuncOpt) (retVal Tensor, e
 	// SET RETVAL
 	switch {
 	case reuse != nil:
-		if err = reuseCheckShape(reuse, a.Shape()); err != nil {
-			err = errors.Wrapf(err, "Reuse shape check failed")
-			return
+		// a reuse tensor that already has the shape was written through its own access pattern (it may be lazily
+		// transposed or a view): re-laying it out now would rearrange what has just been stored
+		if !sameShape(reuse.Shape(), a.Shape()) {
+			if err = reuseCheckShape(reuse, a.Shape()); err != nil {
+				err = errors.Wrapf(err, "Reuse shape check failed")
+				return
+			}
 		}
 		retVal = reuse
 	case !safe:
